@@ -17,7 +17,7 @@ PROPS = {
     "C14": {
         "suites": [("entity", 3000, 60000), ("ser", 1200, 6000)],
         "show_constants": True,
-        "proved_scope": "character level: CDATA sections of serialize_cdata concatenate to the input and contain no ]]>; unescaped_gt text decodes to the input and contains no ]]>. Pretty (all trees, all start nodes, all parameter sets, arbitrary escaping functions): erasing the indentation / newline fields of the pretty token stream gives the plain token stream; the pretty string is the plain tokens plus per token 2*indentation spaces in front and at most one LF behind (C14_pretty_content, _conv, C14_pretty_string). Placement, stack level (all stacks): newline only outside mixed / suppressed content and outside xml:space=preserve scope, no whitespace inside mixed / suppressed content at any depth, what StartTagClose pushes (C14_pretty_where_newline, _mixed, _entry); inside a preserve scope the indentation is frozen at the depth of the preserve element (C14_pretty_where_frozen), zero only when that element is outermost (C14_pretty_where_partial); the full-strength rule is refuted by a closed witness (C14_pretty_where_false). Placement, tree level (all trees): the Pretty stack before every event is exactly the entries of the open elements between start node and the event's node, so every token's indentation / newline is prettify on that explicit function of the tree (C14_pretty_where_tree); a token receives indentation or a newline only if no open element strictly above it has a text child or is in the suppress list (C14_pretty_where_tree_mixed, full strength)",
+        "proved_scope": "character level: CDATA sections of serialize_cdata concatenate to the input and contain no ]]>; unescaped_gt text decodes to the input and contains no ]]>. Pretty (all trees, all start nodes, all parameter sets, arbitrary escaping functions): erasing the indentation / newline fields of the pretty token stream gives the plain token stream; the pretty string is the plain tokens plus per token 2*indentation spaces in front and at most one LF behind (C14_pretty_content, _conv, C14_pretty_string). Placement, stack level (all stacks): newline only outside mixed / suppressed content and outside xml:space=preserve scope, no whitespace inside mixed / suppressed content at any depth, what StartTagClose pushes (C14_pretty_where_newline, _mixed, _entry); inside a preserve scope the indentation is frozen at the depth of the preserve element (C14_pretty_where_frozen), zero only when that element is outermost (C14_pretty_where_partial); the full-strength rule is refuted by a closed witness (C14_pretty_where_false). Placement, tree level (all trees): the Pretty stack before every event is exactly the entries of the open elements between start node and the event's node, so every token's indentation / newline is prettify on that explicit function of the tree (C14_pretty_where_tree); a token receives indentation or a newline only if no open element strictly above it has a text child or is in the suppress list (C14_pretty_where_tree_mixed, full strength). Doctype: the rule 'doctype name = name in the root start tag' is refuted by a closed witness (C14_doctype_false)",
         "not_proved": "C14_options (reparse of the output under every parameter set = C01_main, needs the tokenizer contract and the builder) and C14_decl (prolog well-formedness): by the harness oracles only (prolog grammar check, reparse + whitespace diff); a tree-level reading of the preserve rule beyond C14_pretty_where_tree + the stack-level theorems is not stated separately",
         "modelled": EXTERNAL,
         "assumptions": ["NoopNormalizer (identity) is the normalizer"],
